@@ -361,6 +361,55 @@ func runC01(c *h.Ctx) {
 			}
 		}
 	}
+	// $ is the document wherever it is written: what $.keyvalue() says about
+	// the document's objects (their ids) is the same inside a filter on a
+	// variable, on a pair of another .keyvalue(), or in a subscript
+	{
+		docv := map[string]any{"a": 1.0, "b": map[string]any{"c": 2.0}}
+		vars := map[string]any{"v": 5.0, "arr": []any{7.0, 8.0}}
+		idOf := func(pt string) (string, bool) {
+			o := h.Call("query", cachedPath(pt), docv, h.Opts{Vars: vars})
+			c.Eval(1)
+			if o.Class != h.OK || len(o.Items) == 0 {
+				return "", false
+			}
+			return strings.TrimPrefix(h.Canon(o.Items[0]), "#"), true
+		}
+		id0, ok0 := idOf(`$.keyvalue().id`)
+		id1, ok1 := idOf(`$.b.keyvalue().id`)
+		if ok0 && ok1 && c.Mine(3) {
+			for _, tc := range [][2]string{
+				{`$v ? ($.keyvalue().id == ` + id0 + `)`, "[#5]"},
+				{`$.keyvalue() ? ($.keyvalue().id == ` + id0 + `).key`, `["a" | "b"]`},
+				{`$arr[0 to 1] ? ($.b.keyvalue().id == ` + id1 + `)`, "[#7 | #8]"},
+				{`$.b.keyvalue() ? ($.keyvalue().id == ` + id0 + `).key`, `["c"]`},
+				{`$.b.keyvalue() ? ($.b.keyvalue().id == ` + id1 + ` && $.keyvalue().id == ` + id0 + `).value`, "[#2]"},
+				{`$arr ? (exists($ ? (@.keyvalue().id == ` + id0 + `)))`, "[#7 | #8]"},
+				{`strict $v ? ($.b.keyvalue().id == ` + id1 + `)`, "[#5]"},
+			} {
+				p := cachedPath(tc[0])
+				if p == nil {
+					c.Count("gen.unparsable", 1)
+					continue
+				}
+				o := h.Call("query", p, docv, h.Opts{Vars: vars})
+				c.Eval(1)
+				got := o.Summary()
+				if o.Class == h.OK {
+					gs := make([]string, len(o.Items))
+					for i, it := range o.Items {
+						gs[i] = h.Canon(it)
+					}
+					got = "[" + strings.Join(gs, " | ") + "]"
+				}
+				if got != tc[1] {
+					c.Violate("items", h.F("cause", "unexplained", "kind", "root-ids-in-nested-context"), fmt.Sprintf("$.keyvalue().id = %s and $.b.keyvalue().id = %s at the top level, but Query(%s) = %s; with $ the document there too: %s", id0, id1, tc[0], got, tc[1]), h.Case{Kind: "root-ids", Path: tc[0]})
+				} else {
+					c.Held("items")
+				}
+			}
+		}
+	}
 	// an operand that is not a single number (nothing, several items, a
 	// non-number) next to an operand that raises a non-suppressible error
 	for _, l := range []string{"$.nokey", "$.a[*]", "$.s", "$.a", "$.n", "$.a[0]", "$.e[*]", `"x"`, "null", "$.a[5]"} {
